@@ -230,9 +230,15 @@ func isComposite(o pdf.Object) bool {
 	return false
 }
 
-func parseOne(data []byte) (pdf.Object, int64, error) {
+func parseOne(data []byte) (o pdf.Object, pos int64, err error) {
 	s := pdf.NewVerifScanner(bytes.NewReader(data), nil, nil)
-	o, err := s.ReadObject()
+	defer func() {
+		// a panic of the scanner is an outcome to report, not a crash of the harness
+		if r := recover(); r != nil {
+			o, pos, err = nil, 0, fmt.Errorf("panic: %v", r)
+		}
+	}()
+	o, err = s.ReadObject()
 	return o, s.Pos(), err
 }
 
